@@ -427,6 +427,16 @@ def gen_tree(tier, rng):
   for e in EDGE_TREES:
     for x in (X4, ["sym", 3, 0], ["sym", 3, 2]):
       yield {"e": e, "x": x, "zero": "default", "tags": ["edge", e[0], xtag(x)]}
+  # powers on every (number of numerator terms, number of denominator terms) shape around the
+  # "len(...) >= 2" test of __pow__, all exponents -3..3
+  for rnd in range(2 if tier == "quick" else 20):
+    for na, nb in [(1, 1), (1, 2), (2, 1), (2, 2), (1, 3), (3, 1), (0, 1), (0, 2), (2, 3)]:
+      nk = rng.sample(range(0, 4), na)
+      dk = [0] + rng.sample(range(1, 4), nb - 1) if rng.random() < 0.7 else rng.sample(range(-1, 4), nb)
+      leaf = ["dict", [[k, fr(rng.choice(COEFS))] for k in nk], [[k, fr(rng.choice(COEFS))] for k in dk]]
+      for n in (-3, -2, -1, 0, 1, 2):
+        for x in rand_inputs(rng, 0.5)[:2]:
+          yield {"e": ["pow", leaf, n], "x": x, "zero": "default", "tags": ["powshape", "%dx%d" % (na, nb), "n=%d" % n, xtag(x)]}
   n = 700 if tier == "quick" else 7000
   for i in range(n):
     depth = rng.choice([1, 1, 2, 2, 2, 3, 3, 4])
@@ -557,6 +567,8 @@ def gen_flist(tier, rng):
                     ["neg", "add", "sub", "mul", "muls", "pow"])
       if rng.random() < 0.04:
         e = rand_leaf(rng, False)
+        while e[0] == "lists" and all(c[0] == 0 for c in e[2]):    # every member must be a filter object
+          e = rand_leaf(rng, False)
       es.append(e)
     if par and k >= 2 and rng.random() < 0.4:            # equal denominators: the shortcut of __add__
       den = rand_list(rng, rng.randrange(1, 4), COEFS, first_nz=True)
@@ -571,6 +583,58 @@ def nontrivial_flist(c, o):
   return len(c["es"]) >= 2 and o.get("out", ["raise"])[0] == "ok" and len(x_fracs(c["x"])) > 0
 
 
+# ----------------------------------------------------------------------------- linearize
+def fkey(frl):
+  """A power: an int when integral, else a float (dyadic, exact)"""
+  f = Fraction(frl[0], frl[1])
+  return int(f) if f.denominator == 1 else float(f)
+
+
+def run_lin(c):
+  from collections import OrderedDict
+  import audiolazy
+  r = safe(lambda: audiolazy.ZFilter(OrderedDict((fkey(k), Q(v)) for k, v in c["n"]),
+                                     OrderedDict((fkey(k), Q(v)) for k, v in c["d"])))
+  if r[0] == "raise":
+    return {"build": r}
+  f = r[1]
+  kt = lambda p: [[fr(Fraction(k)), fr(to_frac(v))] for k, v in p.terms()]
+  return {"tn": kt(f.numpoly), "td": kt(f.denpoly), "filt": safe(lambda: filt_of(f.linearize()))}
+
+
+def lit_lin(c, o):
+  ft = lambda l: L.lst(["(%s, %s)" % (q(k), q(v)) for k, v in l])
+  return "(NC %s %s %s)" % (ft(o.get("tn", [])), ft(o.get("td", [])), res_lit(o.get("filt") or o.get("build"), filt_lit))
+
+
+def gen_lin(tier, rng):
+  quarter = [Fraction(a, 4) for a in range(-8, 21)]
+  edge = [([[[17, 4], ONE]], [[[0, 1], ONE]]), ([[[-1, 2], ONE]], [[[0, 1], ONE]]), ([[[5, 2], ONE], [[2, 1], [-1, 2]], [[3, 1], [-1, 2]]], [[[0, 1], ONE]]),
+          ([[[1, 2], ONE]], [[[0, 1], ONE], [[3, 2], [1, 3]]]), ([[[1, 1], ONE]], [[[1, 2], ONE], [[1, 1], [2, 1]]]), ([], [[[0, 1], ONE]]),
+          ([[[3, 2], ONE], [[1, 1], [-1, 2]], [[2, 1], [-1, 2]]], [[[0, 1], ONE]])]
+  for n, d in edge:
+    yield {"n": n, "d": d, "tags": ["edge"]}
+  cnt = 250 if tier == "quick" else 2500
+  for i in range(cnt):
+    nk = rng.sample(quarter, rng.randrange(0, 5))
+    if rng.random() < 0.5:
+      dk = [Fraction(0)] + [k for k in rng.sample(quarter, rng.randrange(0, 3)) if k > 0]
+    else:
+      dk = rng.sample(quarter, rng.randrange(1, 4))
+      m = min(dk)
+      if m.denominator != 1 and rng.random() < 0.7:
+        dk = [k - m for k in dk]                      # lowest power 0: no fractional constructor shift
+    n = [[fr(k), fr(rng.choice(COEFS + [Fraction(0)]))] for k in nk]
+    d = [[fr(k), fr(rng.choice(COEFS))] for k in dk]
+    frac = any(k.denominator != 1 for k in nk + dk)
+    yield {"n": n, "d": d, "tags": ["random", "fractional" if frac else "integer",
+                                     "negative" if any(k < 0 for k in nk + dk) else "causal"]}
+
+
+def nontrivial_lin(c, o):
+  return o.get("filt", ["raise"])[0] == "ok" and any(k[1] != 1 for k, _ in o.get("tn", []) + o.get("td", []))
+
+
 def known(c, o):
   return None
 
@@ -581,4 +645,5 @@ FAMILIES = {
   "sys": Family("sys", IMPORTS, "scase", "corr_sys", "holds_sys", gen_sys, run_sys, lit_sys, nontrivial_sys, known),
   "eq": Family("eq", IMPORTS, "qcase", "corr_eq", "holds_eq", gen_eq, run_eq, lit_eq, nontrivial_eq, known),
   "flist": Family("flist", IMPORTS, "lcase", "corr_flist", "holds_flist", gen_flist, run_flist, lit_flist, nontrivial_flist, known),
+  "lin": Family("lin", IMPORTS, "ncase", "corr_lin", "holds_lin", gen_lin, run_lin, lit_lin, nontrivial_lin, known),
 }
